@@ -48,6 +48,9 @@ CASES = [
     {"added": "k in m and x in m[k]",
      "others_kept": "forall(y, y != x, (y in m[k]) == (k in old(m) and y in old(m)[k]))", "frame": frame},
     {"temporary_mutated": "implies(k not in old(m), x not in m[k])"}),
+  C("fresh_empty_list", "fresh_empty_list", dict(n=Int),
+    {"empty_range_forall": "len(result) == 0 and forall(i, 0 <= i < 0 - 1, result[i + 1] == result[i] + n)"},
+    {"empty_range_exists": "exists(i, 0 <= i < 0 - 1, result[i + 1] == result[i] + n)"}),
   C("discard_and_prune", "discard_and_prune", dict(m=M, k=Int, x=Int),
     {"x_gone": "implies(k in m, x not in m[k])",
      "pruned_iff_empty": "implies(k in old(m), (k in m) == exists(y, y != x, y in old(m)[k]))",
